@@ -228,6 +228,16 @@ Definition parse_level_size (s : list N) (p : N) : res N :=
     end.
 
 Definition mk_range (first amount : Z) (wrap : bool) : range := RG (i32 first) (i32 amount) 1 wrap.
+Definition INT_MAX : Z := 2147483647.
+Definition LONG_MAXZ : Z := 9223372036854775807.
+(* the end of hwloc_calc_parse_range for the numeric forms (fix 99dfc63):
+   "if (first > INT_MAX || amount > INT_MAX) return -1;" before the values are stored into int *)
+Definition store_range (first amount : Z) (wrap : bool) : option range :=
+  if (INT_MAX <? first)%Z || (INT_MAX <? amount)%Z then None else Some (mk_range first amount wrap).
+(* "amount = last-first+1" overflows long when last = LONG_MAX and first = 0: undefined behaviour (UBSan
+   aborts).  Encoded as the shape (amount = -1, wrap-around) that no other path produces any more and
+   that [parse_chain] turns into [CAbort]. *)
+Definition ub_marker : range := RG 0 (-1) 1 true.
 
 (* hwloc_calc_parse_range(s+p): (None = -1 | Some range, index of the dot) *)
 Definition parse_range (s : list N) (p : N) : res (option range * option N) :=
@@ -254,9 +264,10 @@ Definition parse_range (s : list N) (p : N) : res (option range * option N) :=
         let '(last, e2) := r2 in
         let* c2 := rdr str e2 in
         if negb (c2 =? 0) then Ok (None, dot)
-        else if e2 =? e + 1 then Ok (Some (mk_range first (-1) false), dot)
+        else if e2 =? e + 1 then Ok (store_range first (-1) false, dot)
         else if (last <? first)%Z then Ok (None, dot)              (* "last index is lower than first index" (fix 01261ca) *)
-        else Ok (Some (mk_range first (last - first + 1) false), dot)
+        else if (LONG_MAXZ <? last - first + 1)%Z then Ok (Some ub_marker, dot)
+        else Ok (store_range first (last - first + 1) false, dot)
       else if ce =? C_COLON then
         let* r2 := strtol str (e + 1) 10 in
         let '(amount, e2) := r2 in
@@ -264,9 +275,9 @@ Definition parse_range (s : list N) (p : N) : res (option range * option N) :=
         if negb (c2 =? 0) then Ok (None, dot)
         else if e2 =? e + 1 then Ok (None, dot)
         else if (amount <? 0)%Z then Ok (None, dot)                 (* "invalid negative width" (fix 01261ca) *)
-        else Ok (Some (mk_range first amount true), dot)
+        else Ok (store_range first amount true, dot)
       else if negb (ce =? 0) then Ok (None, dot)
-      else Ok (Some (mk_range first 1 false), dot).
+      else Ok (store_range first 1 false, dot).
 
 (* a level as the evaluator needs it *)
 Inductive lvl (LV : Type) := LvNormal (lv : LV) | LvSpecial | LvUnmodelled.
